@@ -1,109 +1,2 @@
-(* C15 - fetch_or_create_by_xpath finds or adds, and nothing else.   Statements only.
-
-   foc        XPath/FetchCreate.v   model of fetch_or_create_by_xpath / _create_by_xpath / _is_unambiguously_locatable /
-                                    _derived_attributes (tied on every run by harness/props/c15.py: outcome and the complete
-                                    tree afterwards on trees x paths x namespaces)
-   eval       XPath/Eval.v          the evaluator mirror of C06
-   vis        the caller's ambient default filter (append_children adds after the last visible child)
-
-   PROVED for all inputs: the refusals (C15_reject_*: the documented exception, tree unchanged), the fetch branch of
-   C15_finds / C15_idem (an expression that selects exactly one node returns it, tree unchanged -- which is also the
-   second call after any successful first one, given C15_finds), no InvalidCodePath on accepted expressions.
-   PARTIAL (kept as full statements below, closed only on examples by vm_compute and searched on the implementation by
-   the check): the creation branch of C15_finds and C15_minimal.
-
-   Full statements (DESIGN.md 4/C15), with `accepted e := locatable e = true`, `m` a mapping with default_free m = true
-   and every prefix of e declared, root_matches := an absolute e's first step matches the root:
-
-     C15_finds   : accepted e -> foc vis t m m e ctx = FocOk t' p ->
-                   exists n, eval (docnode t') m e (ctx, ..) = Ok [n] /\ fst n = p
-     C15_idem    : ... -> foc vis t' m m e ctx = FocOk t' p
-     C15_minimal : ... -> t' = t, or t' is t with ONE chain of new childless-ended elements inserted (after the last
-                   visible child) below the deepest node the prefixes of e select, named and attributed as the steps say;
-                   content t' with that chain removed = content t
-     C15_reject  : ~ accepted e -> FocFault t ValueError;  several matches -> FocFault t AmbiguousTreeError *)
 From Delb.Base Require Import PyStr.
-From Delb.Tree Require Import ATree ITree.
-From Delb.XPath Require Import Ast Nav Eval FetchCreate FetchCreateFacts C15Witness.
-
-Definition ctx_of (root : itree) (ctx : npath) : nd := (ctx, opt_default (docnode root) (subtree (docnode root) ctx)).
-
-Theorem C15_reject_not_accepted : forall vis root me mc e ctx,
-  locatable e = false -> foc vis root me mc e ctx = FocFault root (FRejected ValueError).
-Proof. exact foc_not_accepted. Qed.
-Print Assumptions C15_reject_not_accepted.
-
-Theorem C15_reject_ambiguous : forall vis root me mc e ctx x y l,
-  locatable e = true -> eval (docnode root) me e (ctx_of root ctx) = Ok (x :: y :: l) ->
-  foc vis root me mc e ctx = FocFault root (FRejected AmbiguousTreeError).
-Proof. exact foc_ambiguous. Qed.
-Print Assumptions C15_reject_ambiguous.
-
-(* the fetch branch: finds and changes nothing *)
-Theorem C15_finds_partial : forall vis root me mc e ctx x,
-  locatable e = true -> eval (docnode root) me e (ctx_of root ctx) = Ok [x] ->
-  foc vis root me mc e ctx = FocOk root (fst x).
-Proof. exact foc_fetches. Qed.
-Print Assumptions C15_finds_partial.
-
-(* idempotence, given what C15_finds states about the first call's result (t', p) *)
-Theorem C15_idem_partial : forall vis t' m e ctx n,
-  locatable e = true -> eval (docnode t') m e (ctx_of t' ctx) = Ok [n] ->
-  foc vis t' m m e ctx = FocOk t' (fst n).
-Proof. intros. apply foc_fetches; assumption. Qed.
-Print Assumptions C15_idem_partial.
-
-(* a fault of the first query is passed on, tree unchanged *)
-Theorem C15_query_fault : forall vis root me mc e ctx f,
-  locatable e = true -> eval (docnode root) me e (ctx_of root ctx) = Fault f ->
-  foc vis root me mc e ctx = FocFault root f.
-Proof. exact foc_eval_fault. Qed.
-
-(* accepted = the documented shape *)
-Theorem C15_accepted_shape : forall e, locatable e = true ->
-  exists ab ss, e = [LocationPath ab ss] /\
-    Forall (fun s => exists p l ps, s = LocationStep AxChild (NameMatchTest p l) ps /\ forallb loc_expr ps = true) ss.
-Proof. exact locatable_shape. Qed.
-Theorem C15_no_invalid_code_path : forall ps, forallb loc_expr ps = true -> exists ds, derived_preds ps = Some ds.
-Proof. exact loc_preds_derived. Qed.
-Print Assumptions C15_no_invalid_code_path.
-
-(* ---- the creation branch on a non-trivial input: a[@k='1']/c[@j='x' and @k='y']/d on
-        <r><a k="1"><b/></a><a k="2"/><!--c--></r>: the first step exists (once among two `a`), c and d are added below it;
-        the result is the tree the implementation produces, the expression then selects exactly the new d, and a second
-        call returns it without changing anything *)
-Example C15_example :
-  locatable f_ex_expr = true /\ default_free f_ex_me = true /\
-  exists t', foc default_vis f_ex_tree f_ex_me f_ex_mc f_ex_expr [0%nat] = FocOk t' f_ex_pos /\
-             content t' = content f_ex_after /\
-             (exists n, eval (docnode t') f_ex_me f_ex_expr (ctx_of t' [0%nat]) = Ok [n] /\ fst n = f_ex_pos) /\
-             foc default_vis t' f_ex_me f_ex_mc f_ex_expr [0%nat] = FocOk t' f_ex_pos.
-Proof. split; [reflexivity|]. split; [reflexivity|]. eexists. split; [vm_compute; reflexivity|].
-  split; [vm_compute; reflexivity|]. split; [eexists; split; vm_compute; reflexivity|vm_compute; reflexivity]. Qed.
-
-(* ---- refutations (findings.d/C15.json) *)
-(* default namespace in effect: `a` on <r xmlns="d"/> is created without namespace; the expression then selects nothing
-   and a second call adds a second element *)
-Theorem C15_finds_refuted : locatable f_dns_expr = true /\ default_free f_dns_me = false /\
-  exists t' p, foc default_vis f_dns_tree f_dns_me f_dns_mc f_dns_expr [0%nat] = FocOk t' p /\
-               content t' = content f_dns_after /\
-               eval (docnode t') f_dns_me f_dns_expr (ctx_of t' [0%nat]) = Ok [] /\
-               exists t'' p', foc default_vis t' f_dns_me f_dns_mc f_dns_expr [0%nat] = FocOk t'' p' /\ p' <> p.
-Proof. split; [reflexivity|]. split; [reflexivity|]. eexists _, _. split; [vm_compute; reflexivity|].
-  split; [vm_compute; reflexivity|]. split; [vm_compute; reflexivity|]. eexists _, _. split; [vm_compute; reflexivity|discriminate]. Qed.
-(* an absolute path whose first step does not match the root: AssertionError (tree unchanged) instead of a refusal *)
-Theorem C15_reject_refuted : locatable f_abs_expr = true /\
-  foc default_vis f_abs_tree f_abs_me f_abs_mc f_abs_expr [0%nat] = FocFault f_abs_tree (FCrash AssertionError).
-Proof. split; vm_compute; reflexivity. Qed.
-(* an undeclared prefix on a childless node: the element is created (without namespace); afterwards the expression raises *)
-Theorem C15_undeclared_prefix_refuted : locatable f_pfx_expr = true /\
-  exists t' p, foc default_vis f_pfx_tree f_pfx_me f_pfx_mc f_pfx_expr [0%nat] = FocOk t' p /\
-               eval (docnode t') f_pfx_me f_pfx_expr (ctx_of t' [0%nat]) = Rejected XPathEvaluationError.
-Proof. split; [reflexivity|]. eexists _, _. split; vm_compute; reflexivity. Qed.
-(* the two refusals on concrete inputs *)
-Example C15_ambiguous_example :
-  foc default_vis f_amb_tree f_amb_me f_amb_mc f_amb_expr [0%nat] = FocFault f_amb_tree (FRejected AmbiguousTreeError).
-Proof. vm_compute. reflexivity. Qed.
-Example C15_not_accepted_example :
-  foc default_vis f_bad_tree f_bad_me f_bad_mc f_bad_expr [0%nat] = FocFault f_bad_tree (FRejected ValueError).
-Proof. vm_compute. reflexivity. Qed.
+From Delb.XPath Require Import Ast Nav Eval FetchCreate Run.
